@@ -13,7 +13,7 @@ import ZeepVerif.Lemmas.ReadSpec
 
 namespace ZeepVerif.Props.C02Read
 open ZeepVerif ZeepVerif.Model ZeepVerif.Spec ZeepVerif.Lemmas.ReadField ZeepVerif.Lemmas.ReadFile ZeepVerif.Lemmas.ReadDecide
-open ZeepVerif.Lemmas.ReadSpec ZeepVerif.Lemmas.Flatten
+open ZeepVerif.Lemmas.ReadSpec ZeepVerif.Lemmas.Flatten ZeepVerif.Lemmas.ReadComp
 
 /-- a member declaration becomes exactly one field: its XML name, the snake_case field name, the Rust type of its
     `type` attribute, the occurrence flags of `occurrence`, the current target namespace — and reading it does
@@ -49,6 +49,16 @@ theorem c02_file_read (xf : XFile) (h : plainFileB xf = true) :
       .ok { fileDoc schema tns with
             nodes := (fileDoc schema tns).nodes ++ schema.kids.filterMap (nodeOf (fileDoc schema tns) [schema]) } :=
   readXml_of_plainFileB xf h
+
+/-- **a whole schema file, all covered component kinds**: complex types without derivation, simple types by
+    restriction, typed global elements and global elements with an anonymous complex type, in any number and
+    order — `read_xml` returns one node per component in document order (`compOf` is the closed form of each);
+    again the hypothesis is a Boolean evaluated on the real parse -/
+theorem c02_file_read_general (xf : XFile) (h : coveredFileB xf = true) :
+    ∃ schema tns, xf.tops = some [schema] ∧ readXml [xf] xf.name =
+      .ok { fileDoc schema tns with
+            nodes := (fileDoc schema tns).nodes ++ schema.kids.filterMap (nodeOfC (fileDoc schema tns) [schema]) } :=
+  readXml_of_coveredFileB xf h
 
 /-- in-scope declarations that were collected once add nothing when they are met again on a descendant -/
 theorem c02_declarations_idempotent (d : Doc) (nss : List (Option String × String)) :
@@ -94,5 +104,19 @@ def demoFile : XFile :=
       .other]] }
 
 example : plainFileB demoFile = true := by decide
+
+def demoFile2 : XFile :=
+  let nss : List (Option String × String) := [(some "xs", "http://www.w3.org/2001/XMLSchema"), (some "tns", "urn:demo")]
+  let el (n t : String) : XNode := .elem "element" [⟨"name", none, n⟩, ⟨"type", none, t⟩] nss none []
+  { name := "demo2.xsd", urls := [],
+    tops := some [.elem "schema" [⟨"targetNamespace", none, "urn:demo"⟩] nss none [
+      .elem "simpleType" [⟨"name", none, "Code"⟩] nss none [.elem "restriction" [⟨"base", none, "xs:string"⟩] nss none [
+        .elem "maxLength" [⟨"value", none, "3"⟩] nss none []]],
+      .other,
+      .elem "element" [⟨"name", none, "order"⟩] nss none [.elem "complexType" [] nss none [.elem "sequence" [] nss none [el "code" "tns:Code"]]],
+      .elem "element" [⟨"name", none, "alias"⟩, ⟨"type", none, "tns:Order"⟩] nss none [],
+      .elem "complexType" [⟨"name", none, "Order"⟩] nss none [.elem "sequence" [] nss none [el "id" "xs:int"]]]] }
+
+example : coveredFileB demoFile2 = true := by decide
 
 end ZeepVerif.Props.C02Read
